@@ -19,7 +19,7 @@ EXPLANATION = (
     ' RecordIdentifier happens in a validating constructor; a derived Deserialize building it from unchecked bytes violates'
     ' it; the validating constructor evaluated on lengths around 64 accepts exactly those >= 64), by the option-field typestate rule, or by a table line naming one site with a reason; anything else is '
     'UNAUDITED; (R4) FilterKind Display/FromStr tag agreement, the Display -> FromStr round trip evaluated on concrete sample filters '
-    '(payloads containing the separator, non-UTF-8 payloads) and DocTicket::decode_bytes rejecting an empty node list. NOT'
+    '(payloads containing the separator, non-UTF-8 payloads) and DocTicket::decode_bytes rejecting an empty node list, Capability::from_raw evaluated on every kind byte class; (R5) author-heads reports: AuthorHeads::encode evaluated on (heads, size limit) cells and decode feeding every pair to insert (shared with C13.R3). NOT'
     ' decided: byte-exact round trip for all values and chunkings (postcard / tokio_util trusted), pinned encodings (the '
     'snapshot tests cover them).'
 )
@@ -582,7 +582,31 @@ def r4(ctx):
     ctx.touch(cr)
     ti = [bi for bi, t in cr.calls() if t["f"].get("name") in ("try_into", "try_from", "try_from_primitive")]
     ctx.check(len(ti) == 1 and bool(call_outcomes(cr, ti[0]).get("Err")), "C09.R4", cr.path, "unknown-kind-is-error", "an unknown capability kind byte returns Err", cr.sp)
-    ctx.floor("C09.R4", 6)
+    # every kind byte: a value or an error, never a panic; exactly the kinds the encoder emits decode
+    from . import nsmig
+    ks = nsmig.from_raw_kinds(f)
+    rt = nsmig.round_trip(f)
+    emitted = {k for k, _ in rt.values()}
+    badk = {k: g for k, g in ks.items() if not (g.startswith("Ok(") if k in emitted else g.startswith("Err"))}
+    ctx.check(not badk, "C09.R4", cr.path, "every-kind-byte-decodes-or-errors", "from_raw evaluated on kind bytes %s; deviating from (Ok exactly for the kinds raw() emits, %s; Err otherwise; never a panic): %s" % (ks, sorted(k for k in emitted if k is not None), badk), cr.sp)
+    ctx.floor("C09.R4", 7)
+
+
+def r5(ctx):
+    """author-heads reports (the payload of a gossiped sync report) survive encode -> decode: every head kept without a
+    limit, the newest that fit under one (shared with C13.R3, where the encoding is anchored)"""
+    from . import C13
+    sub = type(ctx)(ctx.prop, ctx.tier, ctx.facts, ctx.cfg)
+    C13.r3(sub)
+    for o in sub.obligations:
+        o = dict(o)
+        o["key"] = o["key"].replace("C13.R3", "C09.R5")
+        o["rule"] = "C09.R5"
+        ctx.obligations.append(o)
+        if o["status"] != "holds":
+            ctx.violations.append(o)
+    ctx.analysed_bodies |= sub.analysed_bodies
+    ctx.floor("C09.R5", 3)
 
 
 def run(ctx):
@@ -590,3 +614,4 @@ def run(ctx):
     ctx.run_rule("C09.R2", r2)
     ctx.run_rule("C09.R3", r3)
     ctx.run_rule("C09.R4", r4)
+    ctx.run_rule("C09.R5", r5)
